@@ -24,6 +24,19 @@ fn sizes(tier: Tier) -> Vec<usize> {
     }
 }
 
+/// All (w,h) pairs: the full square of `sizes` plus a few long/large shapes (row lengths around
+/// 128 and 256, tall single-column images) that exercise strides beyond one alignment unit.
+fn size_pairs(tier: Tier) -> Vec<(usize, usize)> {
+    let sz = sizes(tier);
+    let mut v: Vec<(usize, usize)> = sz.iter().flat_map(|&w| sz.iter().map(move |&h| (w, h))).collect();
+    let extra: &[(usize, usize)] = match tier {
+        Tier::Quick => &[(128, 2), (2, 128), (257, 1), (1, 257), (132, 4)],
+        Tier::Thorough => &[(127, 2), (128, 2), (129, 2), (2, 127), (2, 128), (2, 129), (255, 4), (256, 4), (257, 1), (1, 257), (4, 256), (132, 4), (320, 8), (8, 320), (100, 100)],
+    };
+    v.extend_from_slice(extra);
+    v
+}
+
 fn meta(k: u8, n: u8, ss: (u8, u8)) -> YuvConfig {
     match k {
         0 => cfg_full(n, false, ss, MC::BT709, TC::BT1886, CP::BT709),
@@ -345,9 +358,8 @@ use yuvxyb::CastFromPrimitive;
 
 fn dec_cases(tier: Tier) -> Vec<DecCase> {
     let mut v = vec![];
-    let sz = sizes(tier);
-    for &w in &sz {
-        for &h in &sz {
+    for (w, h) in size_pairs(tier) {
+        {
             for ss in SS {
                 if w % (1 << ss.0) != 0 || h % (1 << ss.1) != 0 {
                     continue;
@@ -369,9 +381,8 @@ fn dec_cases(tier: Tier) -> Vec<DecCase> {
 
 fn enc_cases(tier: Tier) -> Vec<EncCase> {
     let mut v = vec![];
-    let sz = sizes(tier);
-    for &w in &sz {
-        for &h in &sz {
+    for (w, h) in size_pairs(tier) {
+        {
             for ss in SS {
                 if w % (1 << ss.0) != 0 || h % (1 << ss.1) != 0 {
                     continue;
@@ -407,10 +418,9 @@ pub fn run(tier: Tier) -> Report {
     });
     rep.acc.merge(acc);
     let base = dc.len() as u64;
-    let sz = sizes(tier);
     let mut fc = vec![];
-    for &w in &sz {
-        for &h in &sz {
+    for (w, h) in size_pairs(tier) {
+        {
             if tier == Tier::Quick && w * h > 1100 && w != h {
                 continue;
             }
@@ -440,7 +450,7 @@ pub fn run(tier: Tier) -> Report {
     });
     rep.acc.merge(acc);
     rep.bound = format!(
-        "image sizes {:?}^2 restricted to multiples of the subsampling x 6 subsamplings x u8/u16 x 2 metadata sets: {} YUV sources (each to Rgb, LinearRgb, Xyb; by reference, by value, repeated, and rebuilt with {} other paddings/poisons; 0..=32 on each axis at 4x4 and 8x8), {} float->float conversions (8 kinds), {} encodes (4 source kinds)",
+        "image sizes {:?}^2 (plus long/large shapes such as 128x2, 2x128, 257x1, 256x4, 320x8) restricted to multiples of the subsampling x 6 subsamplings x u8/u16 x 2 metadata sets: {} YUV sources (each to Rgb, LinearRgb, Xyb; by reference, by value, repeated, and rebuilt with {} other paddings/poisons; 0..=32 on each axis at 4x4 and 8x8), {} float->float conversions (8 kinds), {} encodes (4 source kinds)",
         sizes(tier), dc.len(), pads(tier, 5, 5).len(), fc.len(), ec.len()
     );
     rep.rule = "output dims = input dims; output pixel (x,y) bit-identical to the conversion of the 1x1 4:4:4 image of Y(x,y), U(x>>ss_x,y>>ss_y), V(..) (resp. of the single float pixel); subsampled encode: luma = 4:4:4 luma, each chroma sample among its block's 4:4:4 chroma, plane sizes (w>>ss_x,h>>ss_y); identical results for every padding/stride/poison; borrowed sources equal to a prior clone; second run identical".into();
